@@ -33,6 +33,7 @@ PY
   ;;
 run)
   name=$1; shift
+  git -C /repo diff --quiet || { echo "/repo has uncommitted changes (a fix in progress?): commit them first -- the run ends with `git checkout -- .`"; exit 1; }
   git -C /repo apply /verif/seeded/$name/patch.diff || { echo "patch does not apply"; exit 1; }
   rm -rf /verif/.evidence_keep && cp -r /verif/evidence /verif/.evidence_keep    # evidence of seeded runs is never kept
   for id in "$@"; do (cd /verif && ./check $id 2>&1 | grep -v conda | grep "VIOLATION\|UNDECIDED\|SELFCHECK\|^C[0-9]*:" | cut -c1-220 | head -12); done
